@@ -2,7 +2,7 @@
    Only statements, closed by [exact]; proofs live in Proofs/VfsPersist.v. *)
 From Coq Require Import List NArith Bool.
 From FB Require Import Model.Pseudo Gen.VfsTable Model.Vfs Model.Persist
-  Proofs.VfsCodec Proofs.VfsAlloc Proofs.VfsInv Proofs.VfsRouting Proofs.VfsPersist.
+  Proofs.VfsCodec Proofs.VfsAlloc Proofs.VfsInv Proofs.VfsRouting Proofs.PseudoWalk Proofs.VfsPersist Proofs.PseudoTree.
 Import ListNotations.
 Local Open Scope N_scope.
 
@@ -45,6 +45,32 @@ Theorem C19_pseudo_connect : forall l tbl,
     forall j, aget j tbl' = option_map (add_kids l j) (aget j tbl).
 Proof. exact connect_spec. Qed.
 
+(* the namespace round trip: after ANY history (fewer than 2^56 pseudo directories) of a Vfs that keeps its pseudo
+   directories (remove_pseudo_root not set: the default), restoring its snapshot into ANY freshly constructed Vfs
+   succeeds and yields the same entry for every pseudo inode number (parent, name, children in the same order) and
+   the same counters; and everything the pseudo fs answers (path walks, lookup, getattr, readdir order and offsets,
+   parent) depends only on those entries: the same paths resolve to the same pseudo inode numbers *)
+Theorem C19_pseudo_roundtrip : forall s o rm, kreach s ->
+  exists t', vfs_restore (vfs_new o rm) (vfs_save s) = (t', Ok tt) /\
+             same_table (v_ps t') (v_ps s) /\ ps_next (v_ps t') = ps_next (v_ps s) /\ v_next t' = v_next s.
+Proof. exact vfs_pseudo_roundtrip. Qed.
+Theorem C19_same_table_same_answers : forall a b, same_table a b ->
+  (forall p, ps_path_walk a p = ps_path_walk b p) /\
+  (forall parent nm, ps_lookup a parent nm = ps_lookup b parent nm) /\
+  (forall ino, ps_getattr a ino = ps_getattr b ino) /\
+  (forall ino size off, ps_readdir a ino size off = ps_readdir b ino size off) /\
+  (forall ino, ps_parent a ino = ps_parent b ino).
+Proof. exact ps_answers_same. Qed.
+(* the tree invariant behind it (children lists = the inodes with that parent in increasing inode order, every parent
+   present, no duplicate keys) holds along all those histories, and any pseudo fs satisfying it round-trips *)
+Theorem C19_tree_invariant : forall s, kreach s -> tree_ok (v_ps s) /\ keys_lt (v_ps s) /\ v_rm s = false.
+Proof. exact kreach_tree. Qed.
+Theorem C19_tree_roundtrip : forall ps st, tree_ok ps ->
+  st_inodes st = save_inodes ps -> st_next_inode st = ps_next ps ->
+  exists ps', ps_restore ps_new st = Ok ps' /\ ps_next ps' = ps_next ps /\
+              forall j, aget j (ps_inodes ps') = aget j (ps_inodes ps).
+Proof. exact pseudo_roundtrip. Qed.
+
 (* `initialized` is the same after restore: refuted (it is re-derived as in_opts <> 0: an INIT without capability
    bits, or init followed by destroy, is not reproduced); proved when it agrees with the options *)
 Definition C19_initialized_full : Prop := initialized_full.
@@ -65,6 +91,8 @@ Theorem C19_global_mapping_partial : forall o rm s t', vfs_restore (vfs_new o rm
 Proof. exact global_mapping_partial. Qed.
 
 (* non-vacuity: a reachable state with two mounts restores, and the restored Vfs allocates what the original would *)
+Example C19_nonvacuous_kreach : exists s, kreach s /\ aget 4 (ps_inodes (v_ps s)) <> None.
+Proof. exact ex_kreach. Qed.
 Example C19_nonvacuous : exists s t', reachable s /\ vfs_restore (vfs_new default_opts false) (vfs_save s) = (t', Ok tt) /\
   v_next t' = 3 /\ ps_next (v_ps t') = 5.
 Proof. exact ex_restore. Qed.
@@ -75,6 +103,10 @@ Print Assumptions C19_issued_inodes_route.
 Print Assumptions C19_future_same.
 Print Assumptions C19_v1_loads.
 Print Assumptions C19_pseudo_connect.
+Print Assumptions C19_pseudo_roundtrip.
+Print Assumptions C19_same_table_same_answers.
+Print Assumptions C19_tree_invariant.
+Print Assumptions C19_tree_roundtrip.
 Print Assumptions C19_initialized_refuted.
 Print Assumptions C19_initialized_partial.
 Print Assumptions C19_global_mapping_refuted.
